@@ -9,8 +9,7 @@
                 self.device was None (AttributeError at that site)
    Every event carries the harness' view of the post-state (lock owner, threads inside the driver,
    device open/closed), which must equal the spec's; all invariants are step post-conditions.
-   The `if self.device is None` test has no event of its own: it is folded into the first Enter of a
-   guarded lock region.  *)
+   The `if self.device is None` test has no event of its own: it is folded into Acq.  *)
 EXTENDS ClfLock, Json, IOUtils, TLCExt
 
 VARIABLES tid, l
@@ -37,22 +36,22 @@ Set2(s) == {s[i] : i \in DOMAIN s}
 
 GBegin == IsEv("Begin") /\ Ev.op \in Ops /\ Begin(Ev.t, Ev.op)
 GEnd   == IsEv("End") /\ End(Ev.t)
+\* Acq = `with self.lock:` entered; the `self.device is None` test of a guarded region follows at once (no
+\* scheduling point in between), so its outcome is fixed here: `devnone` is what the frontend saw
+\* (self.device is None) at that moment; whether that matches the driver's state is judged by NotAfterClose
 GAcq   == /\ IsEv("Acq")
-          /\ pc[Ev.t].op # ""
-          /\ \E k \in DOMAIN Segs(Ev.t) : /\ Set2(Ev.sites) \subseteq Segs(Ev.t)[k].calls
-                                          /\ Acquire(Ev.t, k)
+          /\ pc[Ev.t].op # "" /\ pc[Ev.t].seg = 0 /\ pc[Ev.t].site = ""
+          /\ lock = Free
+          /\ \E k \in DOMAIN Segs(Ev.t) :
+                /\ Segs(Ev.t)[k].locked
+                /\ Set2(Ev.sites) \subseteq Segs(Ev.t)[k].calls
+                /\ pc' = [pc EXCEPT ![Ev.t].seg = k, ![Ev.t].chk = ~Ev.devnone]
+          /\ lock' = Ev.t
+          /\ UNCHANGED <<inDriver, device, closer>>
 GRel   == IsEv("Rel") /\ lock = Ev.t /\ Release(Ev.t)
 
-\* Enter with the device test folded in (a guarded region calls the driver only if it saw a device)
-TCanCall(t, s) ==
-    /\ pc[t].op # "" /\ pc[t].site = ""
-    /\ s \in Site
-    /\ IF pc[t].seg # 0
-       THEN /\ s \in Seg(t).calls
-            /\ (Seg(t).guarded /\ ~pc[t].chk) => device = "open"
-       ELSE \E k \in DOMAIN Segs(t) : ~Segs(t)[k].locked /\ s \in Segs(t)[k].calls
 GEnter == /\ IsEv("Enter")
-          /\ TCanCall(Ev.t, Ev.site)
+          /\ Ev.site \in Site /\ CanCall(Ev.t, Ev.site)
           /\ inDriver' = inDriver \cup {Ev.t}
           /\ pc' = EnterPc(Ev.t, Ev.site)
           /\ device' = IF SiteM[Ev.site] = "close" THEN "closed" ELSE device
